@@ -33,7 +33,7 @@ def derive_seed(base, pid, clause, shard):
 # Quick-tier budget multipliers: the per-clause quick budgets were sized when every property had to finish in a few
 # seconds; the properties below still take < 10 s with them on 16 cores, so their generated budget is multiplied (the
 # thorough tier is ~13x the base quick budget, so every scaled quick budget stays inside what the thorough soaks explored).
-QUICK_SCALE = {"C01": 2, "C03": 5, "C04": 5, "C05": 8, "C06": 8, "C07": 10, "C10": 6, "C12": 8, "C13": 2, "C15": 2,
+QUICK_SCALE = {"C03": 5, "C04": 5, "C05": 8, "C06": 8, "C07": 10, "C10": 6, "C12": 8, "C13": 2, "C15": 2,
                "C16": 4, "C18": 4, "C19": 3, "C20": 4}
 
 
